@@ -1857,6 +1857,9 @@ func (ex *Exec) checkInvariants(fr *Frame, lp *Loop, st *State, phase string) {
 
 // checkSteps: per-iteration postconditions (`loop N step`), checked at every back edge of a cut loop.
 func (ex *Exec) checkSteps(fr *Frame, lp *Loop, st *State) {
+	if ex.specMode > 0 || fr.fn != ex.topFn || len(ex.recorders) > 0 || fr.loopPrev[lp.header] == nil {
+		return // step clauses are obligations of the function under verification only
+	}
 	ct := fr.contract
 	if ct == nil {
 		ct = ex.lookupContract(fr.fn)
